@@ -134,7 +134,22 @@ def make_cases(chk):
                 rel = rng.choice([1.2, 1.5, 3, 0.6, 0.9, 0.98, 0.995])     # a target just below the current quantity is as unreachable as a far one
                 g.fill(target='c', rel=rel, sig=4 if rel > 0.95 and rel < 1 else 2)
         gens.append(g)
-    return gen.twin_lot_cases(chk.seed, 'fill') + exact_capacity_dilutions(chk) + gens
+    return gen.twin_lot_cases(chk.seed, 'fill') + exact_capacity_dilutions(chk) + nanolitre_dilutions(chk) + gens
+
+
+def nanolitre_dilutions(chk):
+    """directed: dilutions of nanolitre droplets (the scale of a 1536-well plate): 20 nL of 1 M to 0.75 M, 40 nL of 10 mg/mL to 9 mg/mL"""
+    q = lambda v, p, b: {'v': v, 'p': p, 'b': b}
+    out = []
+    for i, (vol, salt, conc) in enumerate((('20', q('20', 'n', 'mol'), {'s': 'M', 'v': '0.75'}),
+                                         ('40', q('0.4', 'u', 'g'), {'v': '9', 'np': 'm', 'nb': 'g', 'dp': 'm', 'db': 'L'}),
+                                         ('250', q('50', 'n', 'mol'), {'v': '0.15', 'np': '', 'nb': 'mol', 'dp': '', 'db': 'L'}))):
+        g = gen.Gen(random.Random(chk.seed * 100003 + 118000 + i), nsubs=9)
+        op = {'op': 'newc', 'out': g.fresh(), 'name': g.name(), 'init': [(1, q(vol, 'n', 'L')), (4, salt)]}
+        if g.emit(op, 'nanolitre:newc')['ok']:
+            g.emit({'op': 'dilute', 'v': op['out'], 'solute': 4, 'c': conc, 'solvent': 1, 'out': g.fresh()}, 'nanolitre:dilute')
+        out.append(g)
+    return out
 
 
 def exact_capacity_dilutions(chk):
